@@ -37,5 +37,7 @@ Verdict(sz, L, ok, delivered, code, held) ==
     (IF Fits(sz, L) /\ ~(ok /\ delivered) THEN {"C10.FittingMessageRejected"} ELSE {})
     \cup (IF ~Fits(sz, L) /\ ~ok /\ code # 8 THEN {"C10.OversizeIsResourceExhausted"} ELSE {})
     \cup (IF ~ok /\ delivered THEN {"C10.RejectedMessageDelivered"} ELSE {})
+    \* an RPC that succeeded carried its message: a message that could not be held is an error, not silence
+    \cup (IF ok /\ ~delivered THEN {"C10.MessageDroppedSilently"} ELSE {})
     \cup (IF held > Factor * L + Slack THEN {"C10.BufferingBounded"} ELSE {})
 =============================================================================
